@@ -168,6 +168,49 @@ def printer_templates(facts, fn, depth=0, seen=None):
     return out
 
 
+def returns_factors_of_param(g, pi):
+    """Every character sequence g builds comes from `param.chars().collect()` cut with split_off only: each String in its
+    result is a factor (contiguous piece) of the parameter."""
+    params = g.get("params") or []
+    if pi >= len(params) or params[pi].get("p") != "Bind":
+        return False
+    plid = params[pi]["lid"]
+    vecs = set()
+    for l in lets(g["body"]):
+        if l["pat"].get("p") == "Bind" and "init" in l:
+            init = l["init"]
+            # chars <- param.chars().collect()
+            if init.get("k") == "MethodCall" and init["m"] == "collect" and any(x.get("k") == "MethodCall" and x["m"] == "chars" and
+                                                                               root_local(x["recv"]) == plid for x in walk(init)):
+                vecs.add(l["pat"]["lid"])
+    changed = True
+    while changed:
+        changed = False
+        for l in lets(g["body"]):
+            if l["pat"].get("p") == "Bind" and "init" in l and l["pat"]["lid"] not in vecs:
+                init = l["init"]
+                if init.get("k") == "MethodCall" and init["m"] == "split_off" and root_local(init["recv"]) in vecs:
+                    vecs.add(l["pat"]["lid"])
+                    changed = True
+    if not vecs:
+        return False
+    for c in walk(g["body"]):
+        if c.get("k") == "MethodCall" and root_local(c["recv"]) in vecs and c["recv"].get("k") != "MethodCall" \
+                and c["m"] not in ("split_off", "iter", "len", "collect"):
+            return False
+    # every String produced is collect() over one of these vectors; no other string construction
+    for c in walk(g["body"]):
+        if c.get("k") == "MethodCall" and c["m"] == "collect" and "String" in str(c.get("ty", "")):
+            src = c["recv"]
+            if not (src.get("k") == "MethodCall" and src["m"] == "iter" and root_local(src["recv"]) in vecs):
+                return False
+        if c.get("k") in ("Call", "MethodCall") and "String" in str(c.get("ty", "")) and c.get("m", "") in ("to_string", "to_owned", "repeat", "replace", "join") :
+            return False
+        if c.get("mac", "").startswith("format"):
+            return False
+    return True
+
+
 def subset_concat(target, parts):
     """Is `target` (a format template) an instance of the concatenation of a subsequence of the printer's
     templates?  A hole `{}` of the printer may be filled with any text of the target (for example a quoted
@@ -246,13 +289,17 @@ def r15_4(facts, res, rule="R15-4"):
         if n.get("k") == "Match" and n.get("src") == "Normal":
             for arm in n["arms"]:
                 if "DocumentType" in variants_of_pat(arm["pat"]):
-                    for i in walk(arm["body"]):
-                        if i.get("k") == "If":
-                            calls = [m["m"] for m in walk(i["cond"]) if m.get("k") == "MethodCall"]
-                            ops = [m["op"] for m in walk(i["cond"]) if m.get("k") == "Binary"]
-                            if "document_declaration" in calls and "document_element" in calls:
-                                ok = "&&" not in ops
-                                why = "the refusal is weakened by a conjunction (%s)" % ops
+                    # the refusal: an `if` inside the arm, or the guard of an arm that answers Err
+                    conds = [i["cond"] for i in walk(arm["body"]) if i.get("k") == "If"]
+                    if "guard" in arm and variants_of_pat(arm["pat"]) == ["DocumentType"] and \
+                            any(m.get("k") == "Call" and str(m["f"].get("path", "")).endswith("::Err") for m in walk(arm["body"])):
+                        conds.append(arm["guard"])
+                    for cond in conds:
+                        calls = [m["m"] for m in walk(cond) if m.get("k") == "MethodCall"]
+                        ops = [m["op"] for m in walk(cond) if m.get("k") == "Binary"]
+                        if "document_declaration" in calls and "document_element" in calls:
+                            ok = "&&" not in ops
+                            why = "the refusal is weakened by a conjunction (%s)" % ops
     res.oblige(1, ok)
     if not ok:
         res.add(Finding(rule, "XmlDocument::insert_by_id|DocumentType", "XmlDocument::insert_by_id: %s - a document type can be placed behind the root "
@@ -372,6 +419,20 @@ def run(facts, tier):
                     cls = "c:factor-of-old-value(language factor-closed)"
                 else:
                     why = "collect() of something that is not a pure factor of the old value"
+            if cls is None and rhs.get("k") == "Path" and rhs.get("res") == "Local" and (ty, field) in field_lang:
+                # `let (a, b) = helper(self.<field>.as_str(), ..)`: every string the helper returns is a factor of its argument
+                for l in lets(f["body"]):
+                    if "init" not in l or not any(q.get("p") == "Bind" and q.get("lid") == rhs["lid"] for q in walk(l["pat"])):
+                        continue
+                    c = l["init"]
+                    g = facts.fns.get((c["f"].get("rid") or c["f"].get("id"))) if c.get("k") == "Call" and c["f"].get("k") == "Path" else None
+                    if g is None or "body" not in g:
+                        continue
+                    fed = [i for i, a in enumerate(c["args"]) if any(x.get("k") == "Field" and x["name"] == field for x in walk(a))]
+                    other_str = [a for i, a in enumerate(c["args"]) if i not in fed and "str" in str(a.get("ty", "")).lower()]
+                    if len(fed) == 1 and not other_str and returns_factors_of_param(g, fed[0]) \
+                            and factor_closed(e2.expand_spec(xml10.P, field_lang[(ty, field)], set())):
+                        cls = "c:factor-of-old-value(through %s; language factor-closed)" % g["path"].split("::")[-1]
             if cls is None and not why:
                 why = "the stored value is not validated"
             st["by_class"][cls.split(":")[0] if cls else "unvalidated"] = st["by_class"].get(cls.split(":")[0] if cls else "unvalidated", 0) + 1
